@@ -80,6 +80,20 @@ def Cell.text : Cell → String
   | .empty => ""
   | .num _ shown => shown
 
+/-- ASCII upper-casing (`str::to_uppercase` on ASCII text), structurally recursive so that the
+    kernel can evaluate it in examples. -/
+def upper (s : String) : String := String.ofList (s.toList.map Char.toUpper)
+def lower (s : String) : String := String.ofList (s.toList.map Char.toLower)
+
+def splitOnChar (c : Char) : List Char → List (List Char)
+  | [] => [[]]
+  | x :: xs =>
+    if x = c then [] :: splitOnChar c xs
+    else
+      match splitOnChar c xs with
+      | [] => [[x]]
+      | h :: t => (x :: h) :: t
+
 def isDigit (c : Char) : Bool := '0' ≤ c && c ≤ '9'
 
 def digitsVal (cs : List Char) : Nat := cs.foldl (fun n c => n * 10 + (c.toNat - '0'.toNat)) 0
@@ -114,6 +128,13 @@ def Cell.dec : Cell → Except ErrKind Rat
   | .bool _ => .error .notNumber
   | .error _ => .error .cellError
   | .empty => .error .emptyValue
+
+instance {ε α : Type} [DecidableEq ε] [DecidableEq α] : DecidableEq (Except ε α) := fun a b =>
+  match a, b with
+  | .ok x, .ok y => if h : x = y then isTrue (by rw [h]) else isFalse (fun e => h (by cases e; rfl))
+  | .error x, .error y => if h : x = y then isTrue (by rw [h]) else isFalse (fun e => h (by cases e; rfl))
+  | .ok _, .error _ => isFalse (fun e => by cases e)
+  | .error _, .ok _ => isFalse (fun e => by cases e)
 
 /-- What the converter needs from a row: the cell under a column name. -/
 abbrev Reader := String → Except ErrKind Cell
